@@ -5,7 +5,7 @@
    serialisation (Proofs/HashEncBytes.v) this gives injectivity of [enc_top]. *)
 From Coq Require Import ZArith List Bool Lia Sorting.Permutation Sorting.Sorted.
 Require Import JV.Model.HashEnc JV.Proofs.HashEncSort JV.Proofs.HashEncDefs JV.Proofs.HashEncOrder
-               JV.Proofs.HashEncBytes.
+               JV.Proofs.HashEncBytes JV.Proofs.HashEncKeys.
 Import ListNotations.
 Open Scope Z_scope.
 
@@ -641,4 +641,15 @@ End Final.
 Lemma fits_example : forall md5, fits md5 (VDict [(VInt 300, VList [VInt (-5); VStr [97]]); (VInt 7, VSet [VInt 70000])]).
 Proof.
   intros md5 ops H. vm_compute in H. injection H as <-. repeat constructor; cbn; try lia; auto.
+Qed.
+
+Definition inj_ex : value := VDict [(VInt 300, VList [VInt (-5); VStr [97]]); (VInt 7, VSet [VInt 70000])].
+Lemma inj_example : good inj_ex /\ forall md5, fits md5 inj_ex.
+Proof.
+  split; [|exact fits_example].
+  unfold inj_ex. rewrite good_VDict. split.
+  - apply (JV.Proofs.HashEncKeys.ints_keys_ok [300; 7]).
+    constructor; [cbn; intros [H|[]]; discriminate H|]. constructor; [intros []|constructor].
+  - constructor; [cbn; tauto|]. constructor; [|constructor]. cbn [snd good].
+    apply (JV.Proofs.HashEncKeys.ints_keys_ok [70000]). constructor; [intros []|constructor].
 Qed.
